@@ -441,3 +441,169 @@ pub fn install_quiet_panic_hook() {
 pub fn take_last_panic() -> Option<(String, String)> {
     LAST_PANIC.with(|p| p.borrow_mut().take())
 }
+
+// ------------------------------------------------------------------------------------------------
+// Coverage-guided engine: the bytes libFuzzer hands to the target are the *entropy* of the property's
+// own proptest strategy (RngAlgorithm::PassThrough), so every generator and oracle of this harness is
+// also a structure-aware fuzz target: a mutation of the byte string is a mutation of the generated case,
+// and libFuzzer keeps the inputs which reach new code of the client (sancov counters over /repo/src).
+// ------------------------------------------------------------------------------------------------
+
+pub struct FuzzState {
+    pub acc: Acc,
+    pub known: BTreeSet<String>,
+    pub out_dir: String,
+    pub execs: u64,
+    pub rejected: u64,
+    pub t0: Instant,
+    pub failures_written: u64,
+}
+
+/// Process-global (not thread-local: it is read by an atexit handler after the thread-locals are gone).
+pub static FUZZ: std::sync::Mutex<Option<FuzzState>> = std::sync::Mutex::new(None);
+
+fn with_fuzz<R>(f: impl FnOnce(&mut Option<FuzzState>) -> R) -> R {
+    let mut g = FUZZ.lock().unwrap_or_else(|e| e.into_inner());
+    f(&mut g)
+}
+
+fn fuzz_stats_path(out_dir: &str, prop: &str) -> String {
+    format!("{}/stats-{}-{}.json", out_dir, prop, std::process::id())
+}
+
+pub fn fuzz_flush<P: Property>() {
+    with_fuzz(|f| {
+        if let Some(st) = f.as_ref() {
+            let a = &st.acc;
+            let v = json!({
+                "property": P::ID,
+                "evaluations": a.evaluations,
+                "execs": st.execs,
+                "rejected_by_generator": st.rejected,
+                "nontrivial": a.nontrivial.iter().map(|h| format!("{:016x}", h)).collect::<Vec<_>>(),
+                "labels": a.labels,
+                "samples": a.nontrivial_samples.iter().chain(a.samples.iter()).take(3).cloned().collect::<Vec<_>>(),
+                "known": a.known.iter().map(|(k, (n, msg, case))| json!({"signature": k, "count": n, "message": msg, "case": case})).collect::<Vec<_>>(),
+                "failures_written": st.failures_written,
+                "wall_s": st.t0.elapsed().as_secs_f64(),
+            });
+            let p = fuzz_stats_path(&st.out_dir, P::ID);
+            let tmp = format!("{}.tmp", p);
+            if std::fs::write(&tmp, serde_json::to_string(&v).unwrap()).is_ok() {
+                let _ = std::fs::rename(&tmp, &p);
+            }
+        }
+    });
+}
+
+/// One libFuzzer iteration. Returns normally for passing / known / rejected inputs; on an unknown violation it
+/// shrinks the case with proptest's own value tree, writes `<out>/fail-<prop>-<hash>.json` (a replay file) and
+/// aborts, so that libFuzzer keeps the input as a crash artifact and stops this job.
+pub fn fuzz_one<P: Property>(tier: Tier, data: &[u8]) {
+    use proptest::strategy::ValueTree;
+    use proptest::test_runner::TestRng;
+    with_fuzz(|f| {
+        if f.is_none() {
+            let known = Known::load(P::ID);
+            KNOWN.with(|k| *k.borrow_mut() = known.sigs.clone());
+            let out_dir = std::env::var("LCV_FUZZ_OUT").unwrap_or_else(|_| "/tmp".into());
+            let _ = std::fs::create_dir_all(&out_dir);
+            *f = Some(FuzzState { acc: Acc::default(), known: known.sigs, out_dir, execs: 0, rejected: 0, t0: Instant::now(), failures_written: 0 });
+        }
+    });
+    let cfg = Config { failure_persistence: None, ..Config::default() };
+    // The pass-through RNG yields zeros once the input is used up, and rand's rejection sampling never terminates on
+    // all-zero entropy: extend the input with a pseudo-random tail which is a pure function of the input.
+    const TAIL: usize = 256 * 1024;
+    let mut buf: Vec<u8> = Vec::with_capacity(data.len() + TAIL);
+    buf.extend_from_slice(data);
+    let mut x: u64 = 0xcbf2_9ce4_8422_2325;
+    for b in data {
+        x = (x ^ *b as u64).wrapping_mul(0x0000_0100_0000_01b3);
+    }
+    for _ in 0..TAIL / 8 {
+        x = splitmix(x);
+        buf.extend_from_slice(&x.to_le_bytes());
+    }
+    if std::env::var("LCV_FUZZ_DEBUG").is_ok() {
+        use proptest::prelude::RngCore;
+        let mut r = TestRng::from_seed(RngAlgorithm::PassThrough, &buf);
+        let v: Vec<u32> = (0..40).map(|_| r.next_u32()).collect();
+        eprintln!("buf {} bytes; first words {:x?}", buf.len(), v);
+    }
+    let rng = TestRng::from_seed(RngAlgorithm::PassThrough, &buf);
+    let mut runner = TestRunner::new_with_rng(cfg, rng);
+    let strategy = P::strategy(tier);
+    let mut tree = match strategy.new_tree(&mut runner) {
+        Ok(t) => t,
+        Err(_) => {
+            with_fuzz(|f| {
+                if let Some(st) = f.as_mut() {
+                    st.execs += 1;
+                    st.rejected += 1;
+                }
+            });
+            return;
+        }
+    };
+    let case = tree.current();
+    let mut obs = Obs::default();
+    let r = run_case::<P>(&case, &mut obs);
+    let mut fatal: Option<Failure> = None;
+    with_fuzz(|f| {
+        let st = f.as_mut().unwrap();
+        st.execs += 1;
+        match r {
+            Ok(()) => st.acc.absorb(&case, obs),
+            Err(fl) => {
+                let cv = serde_json::to_value(&case).unwrap_or(Value::Null);
+                st.acc.absorb(&case, obs);
+                if st.known.contains(&fl.signature) || explore_all() {
+                    st.acc.known_hit(&fl.signature, &fl.message, cv);
+                } else {
+                    fatal = Some(fl);
+                }
+            }
+        }
+    });
+    let execs = with_fuzz(|f| f.as_ref().map(|s| s.execs).unwrap_or(0));
+    if fatal.is_none() {
+        if execs % 64 == 0 {
+            fuzz_flush::<P>();
+        }
+        return;
+    }
+    // shrink with the value tree (same signature class: any unknown failure keeps the simplification)
+    let mut best = (case.clone(), fatal.clone().unwrap());
+    let mut last_failed = true;
+    for _ in 0..P::max_shrink_iters() {
+        let moved = if last_failed { tree.simplify() } else { tree.complicate() };
+        if !moved {
+            break;
+        }
+        let c = tree.current();
+        let mut o = Obs::default();
+        match run_case::<P>(&c, &mut o) {
+            Err(fl) if !with_fuzz(|f| f.as_ref().unwrap().known.contains(&fl.signature)) => {
+                best = (c, fl);
+                last_failed = true;
+            }
+            _ => last_failed = false,
+        }
+    }
+    let (bc, bf) = best;
+    let cv = serde_json::to_value(&bc).unwrap_or(Value::Null);
+    let mut h = std::collections::hash_map::DefaultHasher::new();
+    serde_json::to_string(&cv).unwrap_or_default().hash(&mut h);
+    let out_dir = with_fuzz(|f| f.as_ref().unwrap().out_dir.clone());
+    let path = format!("{}/fail-{}-{:016x}.json", out_dir, P::ID, h.finish());
+    let _ = std::fs::write(&path, serde_json::to_string_pretty(&json!({"property": P::ID, "signature": bf.signature, "message": bf.message, "case": cv, "found_by": "coverage-guided engine (libFuzzer over proptest PassThrough entropy)"})).unwrap());
+    with_fuzz(|f| {
+        if let Some(st) = f.as_mut() {
+            st.failures_written += 1;
+        }
+    });
+    fuzz_flush::<P>();
+    eprintln!("LCVFUZZ-FAILURE property={} signature={} replay={}", P::ID, bf.signature, path);
+    std::process::abort();
+}
